@@ -12,6 +12,24 @@ CLAIMED = {
         design="4/C06", technique="symbolic execution of the real codecs (CrossHair/z3) + AST->z3 validity queries for bit strings",
         note="Trusts CrossHair 0.0.110, z3, the environment stubs of vlib/chplugin.py (self-tested on every run), the float-token model "
              "(C float conversion not modelled) and vlib/ref/codec.py."),
+    "C07": dict(
+        text="Bounded symbolic differential against an independent reference codec: for every exported elementary/string type all values and all "
+             "byte patterns of the type's width, generated struct/array/template layouts with symbolic leaves, and every CIP type code of the "
+             "reference table; counterexamples replayed natively.",
+        design="4/C07", technique="symbolic execution of the real codecs vs an arithmetic reference layout (CrossHair/z3); AST->z3 for bit order",
+        note="Oracle: vlib/ref/codec.py (width/signedness per type code, little-endian, LSB-first), written from the CIP spec, shares no code with pycomm3. Float tokens: IEEE bits<->float conversion by C struct is trusted."),
+    "C08": dict(
+        text="Bounded symbolic checking of failure behaviour: unbounded out-of-range integers, every truncation point of symbolic valid encodings, "
+             "arbitrary symbolic byte strings (<= 6/9 bytes) into every decoder, and a finite class list of wrong Python types; verdict must be "
+             "DataError (BufferEmptyError only at a value start), never a value, foreign exception or hang.",
+        design="4/C08", technique="symbolic execution of the real codecs (CrossHair/z3) with a read-counting stream model for termination",
+        note="Termination is bounded by the stream model's read counter and the per-path timeout; wrong-type cases are a finite concrete list."),
+    "C09": dict(
+        text="Bounded symbolic checking: every emitted path form (logical segments of every type, request_path, EPATH options, symbolic segments, "
+             "port segments, tag request paths with 0-3 indices per level and symbol-instance addressing) is parsed back by an independent strict "
+             "EPATH parser for ALL 32-bit values of the numbers involved.",
+        design="4/C09", technique="symbolic execution of the real path encoders (CrossHair/z3) against an independent EPATH parser",
+        note="Oracle: vlib/ref/epath.py from CIP Vol 1 C-1.4. Names come from templates / free ASCII strings <= 6 (12) chars; decimal index rendering modelled with fresh digit variables."),
 }
 NA_REASON = "check not landed yet in this revision of /verif (work in progress; see DESIGN.md section 4 for the planned obligations)"
 
